@@ -65,8 +65,7 @@ struct RefMem { // sparse images over the initial patterns
         return it == ext.end() ? ExtPattern(a) : it->second;
     }
 };
-inline void Reference(const Cfg& c, RefOut& o) {
-    RefMem m;
+inline void Reference(const Cfg& c, RefOut& o, RefMem& m) {
     u32 n0 = c.dword ? std::max<u32>(1, (c.size[0] + 1) / 2) : std::max<u32>(1, c.size[0]);
     u32 n1 = std::max<u32>(1, c.size[1]), n2 = std::max<u32>(1, c.size[2]);
     u32 s = c.src, d = c.dst;
@@ -192,19 +191,23 @@ struct Machine {
             });
     }
     // returns outcome: 0 ok, 1 assert, 2 oob
-    int RunCfg(const Cfg& c, std::string& why) {
+    // fresh=true: peripheral reset first (transfer from the initial state); fresh=false: the transfer
+    // follows whatever ran before on this Dma (history), memory and external images persist
+    int RunCfg(const Cfg& c, std::string& why, bool fresh = true) {
         g_machine = this;
-        dma.Reset();
-        ahbm.Reset();
+        if (fresh) {
+            dma.Reset();
+            ahbm.Reset();
+            ext.clear();
+            undo.clear();
+        }
         irq = 0;
         dsp_writes.clear();
         ext_reads.clear();
         ext_writes.clear();
-        ext.clear();
-        undo.clear();
         oob = false;
         // every other channel holds a distinct decoy configuration that must not be used
-        for (u16 ch = 0; ch < 8; ++ch) {
+        for (u16 ch = 0; ch < 8 && fresh; ++ch) {
             if (ch == c.channel)
                 continue;
             dma.ActivateChannel(ch);
@@ -260,11 +263,14 @@ struct Machine {
             why = Fmt("word address %X outside the 0x40000-word array", oob_addr);
         }
         Teakra::verif_mem_hook = nullptr;
+        return outcome;
+    }
+    void UndoMemory() {
         for (size_t i = undo.size(); i-- > 0;) {
             mem.raw[undo[i].first * 2] = (u8)undo[i].second;
             mem.raw[undo[i].first * 2 + 1] = (u8)(undo[i].second >> 8);
         }
-        return outcome;
+        undo.clear();
     }
 };
 
@@ -283,20 +289,33 @@ inline std::string Cls(const Cfg& c) {
                z(c.size[1]), z(c.size[2]), c.burst, c.channel);
 }
 
-inline void CheckOne(Machine& m, const Cfg& c, Result& res, std::unordered_set<u64>& digests) {
-    RefOut ref;
-    Reference(c, ref);
+// history = transfers already performed on this machine since its last reset (empty: initial state)
+inline void CheckOne(Machine& m, const Cfg& c, Result& res, std::unordered_set<u64>& digests,
+                     const std::vector<Cfg>& history = {}) {
+    RefMem rmem;
     std::string why;
-    int outcome = m.RunCfg(c, why);
+    std::string hist_cls, hist_show, hist_replay;
+    for (size_t i = 0; i < history.size(); ++i) {
+        RefOut dummy;
+        Reference(history[i], dummy, rmem);
+        m.RunCfg(history[i], why, i == 0);
+        hist_cls = "after-transfer-on-" + std::string(history[i].channel == c.channel ? "same" : "other") + "-channel:";
+        hist_show += "after " + Show(history[i]) + " ";
+        hist_replay += Replay(history[i]) + " ; ";
+    }
+    RefOut ref;
+    Reference(c, ref, rmem);
+    int outcome = m.RunCfg(c, why, history.empty());
+    m.UndoMemory();
     ++res.evaluations;
     ++res.transitions;
     ++res.traces_validated;
     if (outcome != 0) {
-        res.AddViolation(Fmt("c13:%s:", outcome == 1 ? "assert" : "oob") + Cls(c),
-                         Fmt("transfer %s ended with %s (%s)", Show(c).c_str(),
+        res.AddViolation(Fmt("c13:%s:", outcome == 1 ? "assert" : "oob") + hist_cls + Cls(c),
+                         Fmt("transfer %s%s ended with %s (%s)", hist_show.c_str(), Show(c).c_str(),
                              outcome == 1 ? "a deliberate assertion" : "an out-of-bounds access",
                              why.c_str()),
-                         Replay(c));
+                         hist_replay + Replay(c));
         return;
     }
     const char* what = nullptr;
@@ -309,13 +328,13 @@ inline void CheckOne(Machine& m, const Cfg& c, Result& res, std::unordered_set<u
     else if (m.irq != 1)
         what = "irq-count";
     if (what) {
-        res.AddViolation(Fmt("c13:%s:", what) + Cls(c),
-                         Fmt("transfer %s: implementation dsp_writes=%s ext_reads=%s ext_writes=%s irq=%d; "
+        res.AddViolation(Fmt("c13:%s:", what) + hist_cls + Cls(c),
+                         Fmt("transfer %s%s: implementation dsp_writes=%s ext_reads=%s ext_writes=%s irq=%d; "
                              "reference dsp_writes=%s ext_reads=%s ext_writes=%s irq=1",
-                             Show(c).c_str(), ShowLog(m.dsp_writes).c_str(), ShowLog(m.ext_reads).c_str(),
+                             hist_show.c_str(), Show(c).c_str(), ShowLog(m.dsp_writes).c_str(), ShowLog(m.ext_reads).c_str(),
                              ShowLog(m.ext_writes).c_str(), m.irq, ShowLog(ref.dsp_writes).c_str(),
                              ShowLog(ref.ext_reads).c_str(), ShowLog(ref.ext_writes).c_str()),
-                         Replay(c));
+                         hist_replay + Replay(c));
     }
     u64 h = Fnv(m.dsp_writes.data(), m.dsp_writes.size() * sizeof(Access));
     h = Fnv(m.ext_writes.data(), m.ext_writes.size() * sizeof(Access), h);
@@ -326,6 +345,7 @@ inline void CheckOne(Machine& m, const Cfg& c, Result& res, std::unordered_set<u
 struct Space {
     bool thorough;
     std::vector<Cfg> specials; // channel / start-address / overlap / external families are generated eagerly
+    std::vector<std::pair<Cfg, Cfg>> pairs; // histories: first transfer, then the transfer under test (no reset between)
     std::vector<u16> sizes{0, 1, 2, 3};
     std::vector<u16> ssteps, dsteps;
     Space(bool th) : thorough(th) {
@@ -361,6 +381,65 @@ struct Space {
         c.unit = 1;
         c.burst = 0;
         return c;
+    }
+    void BuildPairs() {
+        // first transfers chosen to leave every counter/terminal-state combination behind
+        std::vector<Cfg> firsts;
+        for (u16 dw = 0; dw < 2; ++dw)
+            for (auto sz : std::vector<std::array<u16, 3>>{{4, 1, 1}, {2, 2, 3}, {3, 0, 2}, {0, 0, 0}, {1, 3, 1}, {5, 2, 2}}) {
+                Cfg c{};
+                c.size[0] = sz[0], c.size[1] = sz[1], c.size[2] = sz[2];
+                c.sstep[0] = 1, c.sstep[1] = 2, c.sstep[2] = 3;
+                c.dstep[0] = 2, c.dstep[1] = 1, c.dstep[2] = 5;
+                c.dword = dw;
+                c.src = 0x1000;
+                c.dst = 0x1800;
+                c.unit = 1;
+                firsts.push_back(c);
+            }
+        std::vector<u16> st{1, 2};
+        for (const Cfg& f0 : firsts)
+            for (int same = 0; same < 2; ++same)
+                for (u16 ch : {(u16)0, (u16)2, (u16)7})
+                    for (u16 dw = 0; dw < 2; ++dw)
+                        for (u16 s0 : sizes)
+                            for (u16 s1 : sizes)
+                                for (u16 s2 : sizes)
+                                    for (u16 a : st) {
+                                        Cfg f = f0;
+                                        f.channel = same ? ch : (u16)((ch + 3) & 7);
+                                        Cfg c{};
+                                        c.size[0] = s0, c.size[1] = s1, c.size[2] = s2;
+                                        c.sstep[0] = a, c.sstep[1] = 3, c.sstep[2] = 7;
+                                        c.dstep[0] = 1, c.dstep[1] = 2, c.dstep[2] = 9;
+                                        c.dword = dw;
+                                        c.channel = ch;
+                                        c.src = 0x1800; // reads what the first transfer wrote
+                                        c.dst = 0x2000;
+                                        c.unit = 1;
+                                        pairs.push_back({f, c});
+                                    }
+        // external destination with bursts, twice in a row on the same AHBM channel (burst queue state)
+        for (u16 burst : {(u16)0, (u16)1, (u16)2})
+            for (int dir = 0; dir < 2; ++dir)
+                for (u16 dw = 0; dw < 2; ++dw) {
+                    Cfg c{};
+                    u32 bl = burst == 0 ? 1 : burst == 1 ? 4 : 8;
+                    c.size[0] = (u16)(dw ? 2 * bl * 2 : bl * 2), c.size[1] = 1, c.size[2] = 1;
+                    u16 ub = dw ? 4 : 2;
+                    u16* es = dir ? c.dstep : c.sstep;
+                    u16* ds = dir ? c.sstep : c.dstep;
+                    es[0] = es[1] = es[2] = ub;
+                    ds[0] = ds[1] = ds[2] = dw ? 2 : 1;
+                    c.dword = dw, c.unit = dw ? 2 : 1, c.burst = burst;
+                    c.sspace = dir ? 0 : 7, c.dspace = dir ? 7 : 0;
+                    (dir ? c.dst : c.src) = 0x20000200;
+                    (dir ? c.src : c.dst) = 0x0400;
+                    c.channel = 1;
+                    Cfg d = c;
+                    (dir ? d.dst : d.src) = 0x20000400;
+                    pairs.push_back({c, d});
+                }
     }
     void BuildSpecials() {
         // (a) every channel x start addresses (incl. a bank crossing) x overlap distances, reduced step set
@@ -443,22 +522,42 @@ struct Space {
     }
 };
 
-inline int RunReplay(const std::string& r, Result& res) {
-    Cfg c{};
+inline bool ParseCfg(const std::string& r, Cfg& c) {
     unsigned v[17];
-    if (std::sscanf(r.c_str(), "c13 %u %u %u %u %u %u %u %u %u %u %u %u %u %u %u %u %u", &v[0], &v[1], &v[2],
+    if (std::sscanf(r.c_str(), " c13 %u %u %u %u %u %u %u %u %u %u %u %u %u %u %u %u %u", &v[0], &v[1], &v[2],
                     &v[3], &v[4], &v[5], &v[6], &v[7], &v[8], &v[9], &v[10], &v[11], &v[12], &v[13], &v[14],
                     &v[15], &v[16]) != 17)
-        return 2;
+        return false;
     for (int i = 0; i < 3; ++i)
         c.size[i] = v[i], c.sstep[i] = v[3 + i], c.dstep[i] = v[6 + i];
     c.dword = v[9], c.sspace = v[10], c.dspace = v[11], c.channel = v[12], c.src = v[13], c.dst = v[14],
     c.unit = v[15], c.burst = v[16];
+    return true;
+}
+inline int RunReplay(const std::string& r, Result& res) {
+    std::vector<Cfg> seq;
+    size_t pos = 0;
+    while (pos < r.size()) {
+        size_t q = r.find(" ; ", pos);
+        std::string part = r.substr(pos, q == std::string::npos ? std::string::npos : q - pos);
+        Cfg c{};
+        if (!ParseCfg(part, c))
+            return 2;
+        seq.push_back(c);
+        if (q == std::string::npos)
+            break;
+        pos = q + 3;
+    }
+    if (seq.empty())
+        return 2;
+    Cfg c = seq.back();
+    seq.pop_back();
     Machine m;
     std::unordered_set<u64> d;
-    CheckOne(m, c, res, d);
-    std::printf("replay %s: dsp_writes=%s ext_reads=%s ext_writes=%s irq=%d\n", Show(c).c_str(),
-                ShowLog(m.dsp_writes).c_str(), ShowLog(m.ext_reads).c_str(), ShowLog(m.ext_writes).c_str(), m.irq);
+    CheckOne(m, c, res, d, seq);
+    std::printf("replay (%zu earlier transfers) %s: dsp_writes=%s ext_reads=%s ext_writes=%s irq=%d\n", seq.size(),
+                Show(c).c_str(), ShowLog(m.dsp_writes).c_str(), ShowLog(m.ext_reads).c_str(),
+                ShowLog(m.ext_writes).c_str(), m.irq);
     for (auto& x : res.violations)
         std::printf("  %s\n    %s\n", x.key.c_str(), x.text.c_str());
     return res.violations.empty() ? 0 : 1;
@@ -468,13 +567,19 @@ inline void Run(const Args& args, Result& res) {
     res.property = "C13";
     Space sp(args.thorough());
     sp.BuildSpecials();
-    u64 main = sp.MainCount(), total = main + sp.specials.size();
+    sp.BuildPairs();
+    u64 main = sp.MainCount(), nsp = sp.specials.size(), total = main + nsp + sp.pairs.size();
     RunPool(args.jobs,
             [&](int idx, int cnt, WorkerBlock& blk, Result& local) {
                 QuietStdout quiet;
                 Machine m;
                 std::unordered_set<u64> digests;
                 for (u64 i = idx; i < total; i += cnt) {
+                    if (i >= main + nsp) {
+                        auto& pr = sp.pairs[i - main - nsp];
+                        CheckOne(m, pr.second, local, digests, {pr.first});
+                        continue;
+                    }
                     Cfg c = i < main ? sp.Main(i) : sp.specials[i - main];
                     std::snprintf(blk.current, sizeof(blk.current), "%s", Replay(c).c_str());
                     CheckOne(m, c, local, digests);
@@ -491,9 +596,10 @@ inline void Run(const Args& args, Result& res) {
                "write log (memory observer), exact ordered external read and write logs, interrupt count 1; "
                "distinct = distinct write-log digests (summed over 16 shards)";
     res.bound = Fmt("sizes {0..3}^3 x source steps {0,1,2,5,0x10}^3 x destination steps %s x word/dword DSP->DSP "
-                    "(%llu configs) + %zu channel/start/overlap/bank-crossing/external/burst configurations",
+                    "(%llu configs) + %zu channel/start/overlap/bank-crossing/external/burst configurations from the "
+                    "reset state + %zu two-transfer histories (same/other channel, no reset in between)",
                     args.thorough() ? "{0,1,2,5,0x10}^3" : "{0,1,2}^3", (unsigned long long)main,
-                    sp.specials.size());
+                    sp.specials.size(), sp.pairs.size());
     res.assumptions = {"addresses stay inside the 0x20000-word data space (larger strides belong to C18)",
                        "external side: naturally aligned (word,U16)/(dword,U32) units; bursts only with step == unit "
                        "size and whole bursts",
